@@ -253,6 +253,15 @@ def corrupt_irglob(lines, pid):
     return None
 
 
+def corrupt_ir_edge(lines, pid):
+    for e in lines:
+        if e.get("ev") == "decl" and e.get("err") == 0 and e["obs"]["edges"]:
+            ed = e["obs"]["edges"][-1]
+            ed["label"] = "tampered"
+            return "label of an observed connection changed after a glob declaration"
+    return None
+
+
 _CLASS_RENAMES = {"ir_alphabet.json": "ir_alphabet_class.json"}
 FAMILIES["irclass"] = dict(vdrive="ir", trace_module="TraceD2IR", trace_cfg="TraceD2IR.cfg", corrupt=corrupt_ir, engine="TraceD2IR",
                            args={"alphabet": _os.path.join(_SPECS, "ir_alphabet_class.json")}, chunk=6000, heap="4g", renames=_CLASS_RENAMES)
@@ -261,11 +270,15 @@ FAMILIES["irnest"] = dict(vdrive="ir", trace_module="TraceD2IR", trace_cfg="Trac
 _GLOB_RENAMES = {"ir_alphabet.json": "ir_alphabet_glob.json"}
 FAMILIES["irglob"] = dict(vdrive="ir", trace_module="TraceD2IR", trace_cfg="TraceD2IR_glob.cfg", corrupt=corrupt_irglob, engine="TraceD2IR",
                           args={"alphabet": _os.path.join(_SPECS, "ir_alphabet_glob.json")}, chunk=6000, heap="4g", renames=_GLOB_RENAMES)
+_EDGE_RENAMES = {"ir_alphabet.json": "ir_alphabet_edgeglob.json"}
+FAMILIES["iredge"] = dict(vdrive="ir", trace_module="TraceD2IR", trace_cfg="TraceD2IR_glob.cfg", corrupt=corrupt_ir_edge, engine="TraceD2IR",
+                          args={"alphabet": _os.path.join(_SPECS, "ir_alphabet_edgeglob.json")}, chunk=6000, heap="4g", renames=_EDGE_RENAMES)
 PROPS["C12"] = dict(
     family="irglob", level="model_checking", design_ref="4.4",
     technique="globs as standing rules in the TLA+ reference interpreter D2IR (applied to existing targets at the declaration, to later targets at their creation, before the creating declaration's own value), model-checked by TLC (GlobNow, GlobLater); every compiled program prefix compared by TLC with the model",
-    base=dict(quick=[dict(module="D2IR", cfg="D2IR_glob.cfg", renames=_GLOB_RENAMES)],
-              thorough=[dict(module="D2IR", cfg="D2IR_glob_thorough.cfg", renames=_GLOB_RENAMES, timeout=1800)]),
+    base=dict(quick=[dict(module="D2IR", cfg="D2IR_glob.cfg", renames=_GLOB_RENAMES), dict(module="D2IR", cfg="D2IR_edgeglob.cfg", renames=_EDGE_RENAMES)],
+              thorough=[dict(module="D2IR", cfg="D2IR_glob_thorough.cfg", renames=_GLOB_RENAMES, timeout=1800), dict(module="D2IR", cfg="D2IR_edgeglob_thorough.cfg", renames=_EDGE_RENAMES, timeout=1800)]),
+    also=["iredge"],
     rule="programs over the 28-declaration alphabet specs/ir_alphabet_glob.json: objects at depth 1-3 (one mixed-case), explicit shapes/strokes/labels, object nulls, connections, and 13 glob rules "
          "(* and ** at the root, scoped a.* and a.**, b.*, prefix patterns a* and A*, suffix patterns *2, *B and *C with upper-case literals, infix a*2) setting shape, label, stroke, opacity; every program of length <= 2 / <= 3 plus 2500 / 30000 seeded programs of length up to 7 / 10. "
          "Non-trivial: contains a glob and at least one more declaration.",
